@@ -54,8 +54,11 @@ def strategy():
                 st.tuples(st.just("resolve")), st.tuples(st.just("event")),
             ), min_size=1, max_size=6))
             steps.extend(body)
-            ending = draw(st.sampled_from(["leave-goodbye", "goodbye", "leave", "disconnect", "leave-leave-goodbye", "goodbye-goodbye?", "none", "leave-disconnect", "goodbye-leave"]))
+            ending = draw(st.sampled_from(["leave-goodbye", "goodbye", "leave", "disconnect", "leave-leave-goodbye", "goodbye-goodbye?", "none", "leave-disconnect", "goodbye-leave",
+                                           "leave-rejoin-goodbye", "leave-rejoin-leave-goodbye", "rejoin-leave-goodbye"]))
             steps.extend({"leave-goodbye": [("leave",), ("goodbye",)], "goodbye": [("goodbye",)], "leave": [("leave",)], "disconnect": [("disconnect",)],
+                          "leave-rejoin-goodbye": [("leave",), ("rejoin",), ("goodbye",)], "leave-rejoin-leave-goodbye": [("leave",), ("rejoin",), ("leave",), ("goodbye",)],
+                          "rejoin-leave-goodbye": [("rejoin",), ("leave",), ("goodbye",)],
                           "leave-leave-goodbye": [("leave",), ("leave",), ("goodbye",)], "goodbye-goodbye?": [("goodbye",)], "none": [],
                           "leave-disconnect": [("leave",), ("disconnect",)], "goodbye-leave": [("goodbye",), ("leave",)]}[ending])
         steps.append(("resolve",))
@@ -314,6 +317,21 @@ class Run:
             self.goodbye_sent = True
         elif sent:
             self.fail("leave-sent-message-although-not-due", "phase %s goodbye_sent=%r: %r" % (self.phase, self.goodbye_sent, sent))
+
+    def do_rejoin(self):
+        """the application calls join() again while the session is still established (joined, or closing with the router's GOODBYE outstanding): the
+        call is refused - and a refused call leaves the session as it was"""
+        if self.w.t.closed or self.phase != "joined":
+            return
+        n_sent = len(self.w.t.sent)
+        try:
+            self.w.call(lambda: self.s.join("realm1"))
+            refused = False
+        except Exception:
+            refused = True
+        sent = self.sent_names(n_sent)
+        if not refused or sent:
+            self.fail("join-on-established-session-not-refused", "join() on an established session: raised=%r, wrote %r" % (refused, sent))
 
     def do_disconnect(self):
         if self.w.t.closed:
